@@ -201,10 +201,10 @@ func (r *remoteKeySet) updateKeys(ctx context.Context) {
 	simYield(ctx, "update.enter")
 	// Sync keys and finish inflight when that's done.
 	keys, err := r.fetchRemoteKeys(ctx)
-	simYield(ctx, "update.fetched")
+	simYield(ctx, "update.predone")
 
 	r.inflight.done(keys, err)
-	simYield(ctx, "update.window")
+	simYield(ctx, "update.precommit")
 
 	// Lock to update the keys and indicate that there is no longer an
 	// inflight request.
